@@ -184,11 +184,20 @@ func (p *FloatingIPPlugin) unbind(pod *corev1.Pod) error {
 		return err
 	}
 	key := keyObj.KeyInDB
-	if p.cloudProvider != nil {
-		ipInfos, err := p.ipam.ByKeyAndIPRanges(key, nil)
-		if err != nil {
-			return fmt.Errorf("query floating ip by key %s: %v", key, err)
+	ipInfos, err := p.ipam.ByKeyAndIPRanges(key, nil)
+	if err != nil {
+		return fmt.Errorf("query floating ip by key %s: %v", key, err)
+	}
+	for _, ipInfo := range ipInfos {
+		// a late or duplicated event of an earlier pod with the same name must not touch the ip of the
+		// pod which holds it now
+		if ipInfo.PodUid != "" && ipInfo.PodUid != string(pod.GetUID()) {
+			glog.Infof("ignore unbind event of pod %s uid %s, ip %s is held by uid %s", key, string(pod.GetUID()),
+				ipInfo.IP.String(), ipInfo.PodUid)
+			return nil
 		}
+	}
+	if p.cloudProvider != nil {
 		for _, ipInfo := range ipInfos {
 			ipStr := ipInfo.IPInfo.IP.IP.String()
 			glog.Infof("UnAssignIP nodeName %s, ip %s, key %s", ipInfo.NodeName, ipStr, key)
